@@ -10,7 +10,12 @@ environment resolves, and the adapter under test called exactly as plumpy's call
   CONV  LoopCommunicator(comm, loop).add_rpc_subscriber(coro) -> the converted subscriber called by `comm`
         (= convert_to_comm = plum_to_kiwi_future(create_task(...))), then unwrap_kiwi_future on the reply
   RPC   a real plumpy.Process instance: process._schedule_rpc(callback)
-  ACT   plumpy.futures.CancellableAction(fn): run() / cancel()
+  ACT   plumpy.futures.CancellableAction(fn): run() / cancel(); scenario dimension wd: fn cancels the very action that is
+        executing it (what Process.play() does when a hook of the transition a pause action performs calls it)
+
+Scenario dimension cl (CT, CONV, RPC, BCF): the adapter is called as the communicator thread calls it - while the CURRENT
+event loop of the caller is another loop (`Run.other`, never run) than the loop the adapter is told to schedule on.  What the
+process side makes (chain futures, the LoopCommunicator, the process) is made under the target loop, before.
 
 It performs the specification's actions one by one on the single-stepping loop (one RunHandle = one real loop handle, whose
 kind must be the kind at the head of the specification's ready queue) and projects the real objects onto the specification's
@@ -193,6 +198,7 @@ class Run:
         self.scn = scn
         quiet()
         self.loop = ALoop()
+        self.other = ALoop() if scn.get('cl') else None      # the caller's own current loop
         asyncio.set_event_loop(self.loop)
         self.calls = 0
         self.notes = 0
@@ -214,6 +220,7 @@ class Run:
         n = d
 
         if fam == 'CT':
+            self._as_caller()
             self.bind[n + 1] = pfutures.create_task(self._coro_fn(kind), loop)
             self.out = n + 1
         elif fam == 'P2K':
@@ -242,6 +249,7 @@ class Run:
                 made.append(f)
                 return f
             pfutures.create_task = spy
+            self._as_caller()
             try:
                 reply = fake.rpc['target'](fake, {'msg': 1})
             finally:
@@ -269,6 +277,7 @@ class Run:
                 return f
             pfutures.create_task = spy
             subject = 'unwanted' if scn.get('flt') else 'wanted'
+            self._as_caller()
             try:
                 if scn.get('kw'):        # how kiwipy.LocalCommunicator delivers a broadcast
                     reply = fake.bc['target'](fake, body={'msg': 1}, sender='env', subject=subject, correlation_id=None)
@@ -288,12 +297,15 @@ class Run:
                 self.bind[n + 2] = reply
                 self.out = n + 2
         elif fam == 'RPC':
-            self.proc = IdleProcess()
+            self.proc = IdleProcess(loop=loop)
+            self._as_caller()
             self.bind[n + 1] = self.proc._schedule_rpc(self._callback_fn(kind))
             self.out = n + 1
         elif fam == 'ACT':
             def fn():
                 self.calls += 1
+                if scn.get('wd'):
+                    self.bind[1].cancel()        # user code the function calls withdraws the request being carried out
                 if kind == 'raise':
                     raise Injected(RAISE_EX)
                 return RET_VAL
@@ -303,6 +315,11 @@ class Run:
             self.out = 1
         else:
             raise AssertionError(fam)
+
+    def _as_caller(self):
+        """from here on the harness is the caller of the adapter: with cl, a thread whose current event loop is its own"""
+        if self.other is not None:
+            asyncio.set_event_loop(self.other)
 
     # ---- user code handed to the adapters ---------------------------------------------------------------
     def _observer(self, _fut):
@@ -368,6 +385,18 @@ class Run:
     def ready_kinds(self):
         return [handle_kind(h) for h in self.loop.ready if not h._cancelled]
 
+    def foreign_kinds(self):
+        """what has been scheduled on the caller's own loop (timers included)"""
+        if self.other is None:
+            return []
+        return [handle_kind(h) for h in self.other.ready if not h._cancelled] + \
+               ['timer:' + handle_kind(h) for _, _, h in sorted(self.other.timers, key=lambda x: x[:2]) if not h._cancelled]
+
+    def loop_name(self, f):
+        """asyncio future -> the specification's name of the loop it is bound to (public get_loop())"""
+        lp = f.get_loop()
+        return 'target' if lp is self.loop else 'caller' if lp is self.other else repr(lp)
+
     def task_states(self):
         out = []
         for t in self.loop.tasks:
@@ -388,6 +417,9 @@ class Run:
             for i, m in enumerate(mf, 1):
                 real = self.bind.get(i)
                 if real is None:
+                    continue
+                if m['kind'] == 'loop' and asyncio.isfuture(real) and self.loop_name(real) != m['lp']:
+                    diffs.append(('futs[%d:%s].get_loop()' % (i, m['role']), m['lp'], self.loop_name(real)))
                     continue
                 st, v = fut_state(real)
                 if st != m['st']:
@@ -423,6 +455,9 @@ class Run:
         want_ready = [h['op'] for h in state['ready']]
         if want_ready != self.ready_kinds():
             diffs.append(('ready', want_ready, self.ready_kinds()))
+        want_foreign = [h['op'] for h in state['foreign']]
+        if want_foreign != self.foreign_kinds():
+            diffs.append(('handles on the caller\'s own loop', want_foreign, self.foreign_kinds()))
         want_tasks = [[t['st'], t['exc']] for t in state['tasks'] if t['pc'] != 'unborn']
         if want_tasks != self.task_states():
             diffs.append(('tasks', want_tasks, self.task_states()))
@@ -444,7 +479,7 @@ class Run:
         for i, f in sorted(self.bind.items()):
             st, v = fut_state(f)
             futs[i] = (st, exc_tag(v) if st == 'exception' else ('<future>' if is_future(v) else v))
-        return {'futs': futs, 'ready': self.ready_kinds(), 'tasks': self.task_states(), 'loop.errors': self.errors(),
+        return {'futs': futs, 'ready': self.ready_kinds(), 'caller_loop': self.foreign_kinds(), 'tasks': self.task_states(), 'loop.errors': self.errors(),
                 'cf_callback_errors': list(self.klog), 'calls': self.calls, 'notes': self.notes, 'hist': self.hist}
 
 
